@@ -1257,7 +1257,16 @@ func (in *Interp) sliceOp(fr *frame, ins *ssa.Slice) Value {
 		return Str{S: x.S[lo:hi]}
 	case Slice:
 		if x.JSON != nil {
-			in.unsupported("reslice of JSON text")
+			// byte-level access to JSON text: exact when the text can be rendered
+			b, ok := in.jsonRender(x.JSON)
+			if !ok {
+				in.unsupported("reslice of JSON text that cannot be rendered")
+			}
+			back := make([]Value, len(b))
+			for i := range b {
+				back[i] = b[i]
+			}
+			x = Slice{Back: back, Len: len(back)}
 		}
 		cp := len(x.Back)
 		lo, hi, mx := idx(ins.Low, 0), idx(ins.High, x.Len), idx(ins.Max, cp)
